@@ -142,7 +142,7 @@ public:
              std::size_t maxQueueSize = 1024,
              std::function<void(std::exception_ptr)> onTaskError = nullptr,
              ShutdownMode shutdownMode = ShutdownMode::IMMEDIATE)
-      : _initialSize(initialSize), _maxSize(maxSize), _idleTimeout(idleTimeout),
+      : _initialSize(initialSize), _maxSize(maxSize == 0 ? 1 : maxSize), _idleTimeout(idleTimeout),
         _maxQueueSize(maxQueueSize), _shutdown(false), _activeThreads(0), _busyThreads(0),
         _onTaskError(std::move(onTaskError)), _shutdownMode(shutdownMode)
   {
